@@ -3,9 +3,11 @@
 		g_k = nondet_size_t(); g_j = nondet_size_t(); g_b = nondet_u8(); g_n = nondet_size_t(); \
 		g_hk = nondet_size_t(); g_u32 = nondet_u32(); g_hb = nondet_u8(); g_p = nondet_ptr(); \
 		g_len0 = nondet_size_t(); g_off0 = nondet_size_t(); g_cap0 = nondet_size_t(); \
-		g_c1 = nondet_ptr(); g_c2 = nondet_ptr(); g_p1 = nondet_ptr(); g_rq_shape = nondet_int(); g_rp_shape = nondet_int(); g_c1_master = nondet_bool(); \
+		g_sock = nondet_ptr(); g_c1 = nondet_ptr(); g_c2 = nondet_ptr(); g_p1 = nondet_ptr(); g_p2 = nondet_ptr(); g_rq_shape = nondet_int(); g_rp_shape = nondet_int(); g_c1_master = nondet_bool(); \
 		g_free_calls = nondet_size_t(); g_alloc_ok = nondet_size_t(); \
 		__CPROVER_assume(g_free_calls < ((size_t) 1 << 40) && g_alloc_ok < ((size_t) 1 << 40)); \
 		VP_HAVOC_PROTO(); VP_HAVOC_RR(); VP_HAVOC_SYNC();    \
 	} while (0)
 void h_rep0_pipe_recv_cb(void) { void *arg; VP_HAVOC_GHOSTS(); rep0_pipe_recv_cb(arg); VP_CANARY(); }
+void h_rep0_ctx_send(void) { void *arg; nni_aio *aio; VP_HAVOC_GHOSTS(); rep0_ctx_send(arg, aio); VP_CANARY(); }
+void h_rep0_ctx_recv(void) { void *arg; nni_aio *aio; VP_HAVOC_GHOSTS(); rep0_ctx_recv(arg, aio); VP_CANARY(); }
